@@ -365,6 +365,10 @@ package redisemu
 //@ ghostbefore "startByte := startBit / 8" : gBpE = endBit
 //@ ghostbefore "startByte := startBit / 8" : gBpRanged = true
 //@ assertbefore "startByte := startBit / 8" [C18] clamped: 0 <= startBit && startBit <= endBit && endBit < len(bytes)*8
+// the range searched is the one the arguments name: a byte index covers all eight bits of that byte
+//@ assertbefore "startByte := startBit / 8" [C18] range.start: startBit == specBpStart(len(bytes)*8, old(startIndex), width)
+//@ assertbefore "startByte := startBit / 8" [C18] range.end: endBit == specBpEnd(len(bytes)*8, old(endIndex), width)
+//@ ensures [C18] early.only.empty: !gBpRanged ==> specBpStart(len(bytes)*8, startIndex, width) > len(bytes)*8 - 1 || specBpEnd(len(bytes)*8, endIndex, width) < specBpStart(len(bytes)*8, startIndex, width)
 //@ assertbefore "fullEnd := endByte" slow [C18] first.byte.done: forall i int :: gBpS <= i && i < startBit && i <= gBpE ==> bpBit(bytes, i) != searchBit
 //@ assertbefore "fullEnd := endByte" [C18] aligned: startBit == startByte*8 && index == startByte && gBpS <= startBit && startByte <= endByte + 1 && endByte == gBpE/8 && endByte < len(bytes) && lastBit == uint8(1)<<uint(7 - gBpE%8) && 0 <= startByte
 //@ loop 1 invariant startBit == startByte*8 && 0 <= startByte && startByte <= index && (index <= fullEnd + 1 || index == startByte) && fullEnd <= endByte && endByte == gBpE/8 && endByte < len(bytes) && gBpS <= startBit && lastBit == uint8(1)<<uint(7 - gBpE%8) && (fullEnd == endByte || fullEnd == endByte - 1) && ((fullEnd == endByte) == (lastBit == 1)) && 0 <= gBpS && gBpS <= gBpE && gBpRanged && startByte <= endByte + 1
